@@ -127,7 +127,8 @@ def _set(multi=False, pipe=False):
         langs = []
         for code in (["en-US", "fr-FR"] if multi else ["en-US"]):
             s = draw(gen.simple_set(ln, 1, 6, gen.DAY - gen.MIN, min_dur=40 * gen.MS,
-                                    empty_lines=False, split_nodes=False, max_lines=3))
+                                    empty_lines=True, split_nodes=False, max_lines=3,
+                                    empty_kinds=("br", "style")))
             lang = s["langs"][0]
             lang["code"] = code
             langs.append(lang)
